@@ -129,6 +129,20 @@ pub fn tensor_family(rng: &mut Rng, max_steps: usize) -> Result<Fam> {
                     let b = g.input(arr(&[sa[0]], st))?;
                     Ok((a.dot(b)?, "Dot".to_owned()))
                 }
+                10 if sa.len() == 2 => {
+                    // Dot on matrices is a matrix product: operand order matters
+                    if rng.chance(1, 2) {
+                        let b = g.input(arr(&[sa[1], 1 + rng.below(3)], st))?;
+                        Ok((a.dot(b)?, "Dot".to_owned()))
+                    } else {
+                        let b = g.input(arr(&[1 + rng.below(3), sa[0]], st))?;
+                        Ok((b.dot(a.clone())?, "Dot".to_owned()))
+                    }
+                }
+                10 if sa.len() == 3 => {
+                    let b = g.input(arr(&[sa[2]], st))?;
+                    Ok((a.dot(b)?, "Dot".to_owned()))
+                }
                 11 if sa.len() == 2 => {
                     let b = g.input(arr(&[1 + rng.below(3), sa[1]], st))?;
                     Ok((a.gemm(b, false, true)?, "Gemm".to_owned()))
@@ -330,6 +344,80 @@ pub fn call_iterate_family(rng: &mut Rng) -> Result<Fam> {
     finish("call_iterate", format!("{} {} n={}", if which == 0 { "iterate" } else { "call" }, st_name(st), n), c, rng, vec![if which == 0 { "Iterate".into() } else { "Call".into() }], true)
 }
 
+/// Iterate declared associative with a NON-commutative body (2x2 matrix product), per-step outputs,
+/// lengths around the 15/16 algorithm switch
+pub fn assoc_iterate_family(rng: &mut Rng) -> Result<Fam> {
+    let st = *rng.pick(&[UINT64, INT64, INT32]);
+    let n = match rng.below(6) {
+        0 => rng.below(4),
+        1 => 1 + rng.below(15),
+        _ => 16 + rng.below(4),
+    };
+    let t = array_type(vec![2, 2], st);
+    let c = create_context()?;
+    let body = c.create_graph()?;
+    {
+        let s = body.input(t.clone())?;
+        let x = body.input(t.clone())?;
+        let ns = s.matmul(x.clone())?;
+        let out = s.add(x)?;
+        body.create_tuple(vec![ns, out])?.set_as_output()?;
+        body.add_annotation(GraphAnnotation::AssociativeOperation)?;
+        body.finalize()?;
+    }
+    let g = c.create_graph()?;
+    let s0 = g.input(t.clone())?;
+    let mut xs = vec![];
+    for _ in 0..n {
+        xs.push(g.input(t.clone())?);
+    }
+    let v = g.create_vector(t.clone(), xs)?;
+    let r = g.iterate(body, s0, v)?;
+    let fin = r.tuple_get(0)?;
+    let out = if n > 0 { fin.add(r.tuple_get(1)?.vector_to_array()?.sum(vec![0])?)? } else { fin };
+    out.set_as_output()?;
+    g.finalize()?;
+    c.set_main_graph(g)?;
+    c.finalize()?;
+    let mut fam = finish("assoc_iterate", format!("2x2 {} matrix product chain, n={}", st_name(st), n), c, rng, vec!["Iterate:associative".into()], true)?;
+    // small entries so that products stay informative
+    fam.inputs = (0..=n).map(|_| {
+        let m: Vec<i64> = (0..4).map(|_| rng.range(-3, 4)).collect();
+        if st.is_signed() { Value::from_flattened_array(&m, st) } else { Value::from_flattened_array(&m.iter().map(|x| x.unsigned_abs()).collect::<Vec<u64>>(), st) }
+    }).collect::<Result<Vec<_>>>()?;
+    Ok(fam)
+}
+
+/// one bilinear operation (Dot / Matmul / Gemm) applied directly to two inputs; square-biased shapes
+/// so that a swapped operand order still type-checks
+pub fn bilinear_family(rng: &mut Rng) -> Result<Fam> {
+    let st = *rng.pick(&[INT32, UINT64, INT64, UINT8, INT128]);
+    let k = 1 + rng.below(3);
+    let sq = rng.chance(2, 3);
+    let n = if sq { k } else { 1 + rng.below(3) };
+    let m = if sq { k } else { 1 + rng.below(3) };
+    let which = rng.below(7);
+    let (sa, sb, name): (Vec<u64>, Vec<u64>, String) = match which {
+        0 => (vec![n, k], vec![k, m], "Dot".into()),
+        1 => (vec![k], vec![k], "Dot".into()),
+        2 => (vec![n, k], vec![k], "Dot".into()),
+        3 => (vec![2, n, k], vec![k, m], "Dot".into()),
+        4 => (vec![n, k], vec![k, m], "Matmul".into()),
+        5 => (vec![2, n, k], vec![2, k, m], "Matmul".into()),
+        _ => (vec![n, k], vec![m, k], "Gemm".into()),
+    };
+    let ctx = simple_context(|g| {
+        let a = g.input(arr(&sa, st))?;
+        let b = g.input(arr(&sb, st))?;
+        match which {
+            0..=3 => a.dot(b),
+            4 | 5 => a.matmul(b),
+            _ => a.gemm(b, false, true),
+        }
+    })?;
+    finish("bilinear", format!("{} {} {:?} x {:?}", name, st_name(st), sa, sb), ctx, rng, vec![name], true)
+}
+
 pub fn arith_family(rng: &mut Rng, max_ops: usize) -> Result<Fam> {
     let p = crate::mpc_common::gen_aprog(rng, max_ops, false);
     let ctx = p.build()?;
@@ -342,9 +430,10 @@ pub fn gen_family(rng: &mut Rng, heavy: bool) -> Result<Fam> {
     match x {
         0..=4 => arith_family(rng, 6),
         5..=10 => tensor_family(rng, 5),
-        11 | 12 => compare_family(rng),
+        11 => compare_family(rng),
+        12 => bilinear_family(rng),
         13 | 14 => conversion_family(rng),
-        15 => call_iterate_family(rng),
+        15 => if rng.chance(1, 2) { call_iterate_family(rng) } else { assoc_iterate_family(rng) },
         16 | 17 => sort_family(rng),
         _ => join_family(rng, &[JoinType::Inner, JoinType::Left, JoinType::Union, JoinType::Full]),
     }
